@@ -398,7 +398,8 @@ theorem run_lt1_64 (bits P fmt : Nat) (hP40 : P ≤ 40)
       b = num * 10 ^ fl / den ∧ (ru = true ↔ num * 10 ^ fl % den ≠ 0) ∧
       0 < b ∧ (D b).length ≤ fl ∧ 0 < dg ∧ dg ≤ fl ∧ fl ≤ dg + P + 1 ∧
       (fl < dg + P + 1 → ru = false ∧ b % 10 = 5) ∧ (D b).length ≤ 1344 ∧
-      fl = min (fracBits 52 1023 (bits % 2 ^ 52) ((bits / 2 ^ 52) % 2 ^ 11)) (dg + P + 1) := by
+      fl = min (fracBits 52 1023 (bits % 2 ^ 52) ((bits / 2 ^ 52) % 2 ^ 11)) (dg + P + 1) ∧
+      fl < (D b).length + dg := by
   have hfin : (bits / 2 ^ 52) % 2 ^ 11 ≠ 2 ^ 11 - 1 := by omega
   have hfl : bits % 2 ^ 52 < 2 ^ 52 := Nat.mod_lt _ (by norm_num)
   have hel : (bits / 2 ^ 52) % 2 ^ 11 ≤ 2 * 1023 := by omega
@@ -465,14 +466,21 @@ theorem run_lt1_64 (bits P fmt : Nat) (hP40 : P ≤ 40)
     calc num * 10 ^ fl < den * 10 ^ fl := Nat.mul_lt_mul_of_pos_right hnumlt (Nat.pow_pos (by decide))
       _ = 10 ^ fl * den := Nat.mul_comm _ _
   refine ⟨num, den, b, fl, dg1 + 1, ru, hden, hdec64, hnumlt, hnumpos, hrs, hb, hru, hbpos,
-    (D_length_le_iff (by omega)).mpr hblt, by omega, hdgfl, by omega, ?_, ?_, by omega⟩
+    (D_length_le_iff (by omega)).mpr hblt, by omega, hdgfl, by omega, ?_, ?_, by omega, ?_⟩
   · intro hlt
     rcases hfleq with h | h
     · refine ⟨?_, hodd h⟩
       rw [← hrud]; simp [h]
     · omega
   · exact D_length_le _ 1344 (by decide) (lt_of_lt_of_le hb1344 (Nat.pow_le_pow_left (by decide) 1344))
-
+  · have hbge : 10 ^ (fl - (dg1 + 1)) ≤ b := by
+      rw [hb, Nat.le_div_iff_mul_le hden]
+      calc 10 ^ (fl - (dg1 + 1)) * den ≤ 10 ^ (fl - (dg1 + 1)) * (num * 10 ^ (dg1 + 1)) :=
+            Nat.mul_le_mul_left _ (le_trans hlow (Nat.mul_le_mul_left _ (Nat.le_of_lt ht2)))
+        _ = num * 10 ^ fl := by
+            rw [Nat.mul_comm, Nat.mul_assoc, ← Nat.pow_add, show dg1 + 1 + (fl - (dg1 + 1)) = fl by omega]
+    have := D_length_gt hbge
+    omega
 
 /-- **Fixed and SemiFixed for every double below one whose binary fraction is longer than the precision**:
 `estimate + p + 1` fractional digits are produced exactly (`⌊v·10^fl⌋` plus the sticky flag), rounded half-even at
@@ -486,7 +494,7 @@ theorem long_fraction_lt1_64 (pre : List Nat) (bits p f : Nat) (hf12 : f = 1 ∨
   have hel : (bits / 2 ^ 52) % 2 ^ 11 ≤ 2 * 1023 := by omega
   have hf0 : ¬ (f = fmtDefault ∧ p = 0) := by rcases hf12 with rfl | rfl <;> simp [fmtDefault]
   obtain ⟨num, den, b, fl, dg, ru, hden, hdec64, hnumlt, hnumpos, hrs, hb, hru, hbpos, hLfl, hdg0, hdgfl, hflle, _, hblen,
-    hflmin⟩ := run_lt1_64 bits p f hp hlt1 hnz
+    hflmin, _⟩ := run_lt1_64 bits p f hp hlt1 hnz
   have hpf : p < fl := by omega
   rw [realToString_finite64 pre bits p f hfin hnz, if_neg hf0, realFinite_reduce shape64 _ hfl hel hnz hp, hrs]
   have hR : R b = Rl b := by simp [R, Rl]; omega
